@@ -76,6 +76,8 @@ func checkC04(c *Ctx) {
 	c.Rule("C04-R3", "engage re-applies mouse/paste/focus/title from the persistent fields; every toggler stores the persistent field and emits consistently, under the lock")
 	c.Rule("C04-R5", "mode strings come in pairs: the built-in fallback of the string that switches a mode off is assigned under the same conditions as the fallback of the string that switches it on; in engage the title is saved before it is set")
 	c.Rule("C04-R6", "a mode toggled while the screen is not running (suspended, or before Init) is remembered and not written: every emission of the mode togglers and of SetTitle is behind the running test (engage applies the remembered modes; a write to the stopped Tty would leave the mode on after Fini, whose teardown returns at once on a screen that is not running)")
+	c.Rule("C04-R8", "switching a mode off does not consult the bookkeeping: enableMouse emits the all-off string under no condition but mouse support (DisableMouse has zeroed the remembered flags before the helper runs), and every toggler stores the remembered value unconditionally (also on a suspended screen)")
+	c.Expect("C04-R8", 7)
 	c.Rule("C04-R7", "what the shutdown path undoes at every hand-back, engage did at every take-over: the enter/push emissions (alternate screen, keypad, cursor, auto-margin, title stack) carry no guard beyond the environment switch and the string being present")
 	c.Expect("C04-R7", 5)
 	c.Expect("C04-R6", 7)
@@ -152,6 +154,7 @@ func checkC04(c *Ctx) {
 		{"cursor-shape", []string{"map:cursorStyles[t.cursorStyle]"}, "map:cursorStyles[" + defKey + "]", []string{"t.cursorStyles != nil"}}, // not the application's current request: it says nothing about what an earlier Show sent
 		{"cursor-colour", []string{"prepared:cursorRGB"}, "prepared:cursorFg", []string{"t.cursorFg != \"\""}},
 		{"colours", []string{"field:SetFg", "field:SetBg", "field:SetFgBg", "field:SetFgRGB", "field:SetBgRGB", "field:SetFgBgRGB"}, "field:ResetFgBg", nil},
+		{"hyperlink", []string{"prepared:enterUrl"}, "prepared:exitUrl", nil},
 		{"attributes", []string{"field:Bold", "field:Underline", "field:Reverse", "field:Blink", "field:Dim", "field:Italic", "field:StrikeThrough"}, "field:AttrOff", nil},
 	}
 	// guards common to the whole tail (e.g. running == true) are those that also hold at Stop
@@ -509,6 +512,23 @@ func checkC04(c *Ctx) {
 			}
 		})
 		c.Check(okS && okE, "C04-R3", "SetTitle:store+emit", p.pos(st.Pos()), "title stored for Resume and emitted")
+	}
+	checkMouseOffUnconditional(c, p, "C04-R8")
+	for _, tg := range []struct{ m, f string }{{"EnableMouse", "mouseFlags"}, {"DisableMouse", "mouseFlags"}, {"EnablePaste", "pasteEnabled"}, {"DisablePaste", "pasteEnabled"}, {"EnableFocus", "focusEnabled"}, {"DisableFocus", "focusEnabled"}} {
+		fn := p.Fn("tcell:(*tScreen)." + tg.m)
+		if fn == nil {
+			continue
+		}
+		bad, n := "", 0
+		for _, st := range storesTo(fn, "tcell.tScreen", tg.f) {
+			n++
+			for _, a := range guardsAt(st.Block()) {
+				if strings.HasPrefix(a.L, "t.") {
+					bad += "the store depends on " + a.String() + "; "
+				}
+			}
+		}
+		c.Check(n == 1 && bad == "", "C04-R8", tg.m+":remembers-unconditionally", p.pos(fn.Pos()), fmt.Sprintf("%d store(s) of t.%s, under no condition on the screen's state %s", n, tg.f, bad))
 	}
 	// R6: a mode toggled on a screen that is not running is remembered, not emitted: the write would go
 	// to a stopped Tty, and Fini's teardown (which returns at once on a screen that is not running)
